@@ -129,16 +129,18 @@ Section SchemaSwitch.
 
   (** for an object value of type [tn], the type switch fires exactly when [tn] is a possible
       type of the condition *)
-  Lemma ok_types_subtype tn tc : tn <> [] -> mem tn (match ok_types no_quirks S tc with [] => [[]] | l => l end) = subtype S tn tc.
+  Lemma ok_types_mem tn tc : mem tn (ok_types no_quirks S tc) = subtype S tn tc.
   Proof.
-    intros Hne. unfold ok_types, subtype.
-    destruct (lookup_type S tc) as [[n ifs fs|n fs|n ms|n vs|n]|] eqn:E; simpl.
-    - rewrite orb_false_r. reflexivity.
-    - destruct (implementations S tc) eqn:Ei; [|reflexivity]. simpl. rewrite orb_false_r. apply bytes_eqb_neq. exact Hne.
-    - destruct ms; [|reflexivity]. simpl. rewrite orb_false_r. apply bytes_eqb_neq. exact Hne.
-    - rewrite orb_false_r. apply bytes_eqb_neq. exact Hne.
-    - rewrite orb_false_r. apply bytes_eqb_neq. exact Hne.
-    - rewrite orb_false_r. apply bytes_eqb_neq. exact Hne.
+    unfold ok_types, subtype.
+    destruct (lookup_type S tc) as [[n ifs fs|n fs|n ms|n vs|n]|] eqn:E; simpl; try reflexivity.
+    rewrite orb_false_r. reflexivity.
+  Qed.
+
+  Lemma ok_types_subtype tn tc : tn <> [] ->
+    mem tn (match ok_types no_quirks S tc with [] => [[]] | _ :: _ => ok_types no_quirks S tc end) = subtype S tn tc.
+  Proof.
+    intros Hne. rewrite <- ok_types_mem. destruct (ok_types no_quirks S tc) eqn:E; [|reflexivity].
+    simpl. rewrite orb_false_r. apply bytes_eqb_neq. exact Hne.
   Qed.
 
   Lemma known_subtype m d tn tc :
